@@ -1,0 +1,40 @@
+//! Observation / scheduling points for an external model checker.
+//!
+//! Compiled only with the cargo feature `verif-hooks`. Without an installed sink every
+//! `emit` is a no-op. A sink may block the calling thread: that is how a harness pauses the
+//! message loop or a request worker at one of these points.
+
+use std::sync::{Arc, RwLock};
+
+pub enum Event {
+    /// the message loop finished handling one message (normally or through the panic guard)
+    LoopHandled { panicked: bool },
+    /// a request worker thread was spawned; `handle` is its JoinHandle
+    WorkerSpawned {
+        id: String,
+        handle: std::thread::JoinHandle<bool>,
+    },
+    /// worker entered `on_request`
+    WorkerStart { id: String },
+    /// worker is about to compute the answer from the server state
+    WorkerComputing { id: String },
+    /// worker has the answer, about to send it
+    WorkerComputed { id: String },
+    /// worker has sent the response
+    WorkerResponded { id: String },
+}
+
+pub type Sink = Arc<dyn Fn(Event) + Send + Sync>;
+
+static SINK: RwLock<Option<Sink>> = RwLock::new(None);
+
+pub fn install(sink: Option<Sink>) {
+    *SINK.write().unwrap() = sink;
+}
+
+pub fn emit(event: Event) {
+    let sink = SINK.read().unwrap().clone();
+    if let Some(sink) = sink {
+        sink(event)
+    }
+}
